@@ -106,6 +106,12 @@ pub fn reference(atoms: &[LjAtom], pl: &[Affine], lat: &Lattice, uncut_reach_sig
                         r.mag += 0.5 * e.abs();
                         let s = 0.5 * (a.sigma + b.sigma);
                         r.min_reduced_distance = r.min_reduced_distance.min(d / s);
+                        if d / s < 1e-6 {
+                            // two particles within a millionth of their size: the pair energy
+                            // (beyond 1e72) is decided by the rounding of the positions, not by
+                            // the crystal - nothing can be compared
+                            r.degenerate = true;
+                        }
                         r.attractive += 0.5 * 4. * (a.eps * b.eps).sqrt() * (s / d).powi(6);
                         if let Some(el) = r.energy_law.as_mut() {
                             *el += 0.5 * lj(d, a.sigma, a.eps, a.cutoff);
@@ -265,11 +271,15 @@ fn check_variants(c: &Case, s: f64, r: &Reference, lat: &Lattice, atoms: &[LjAto
                 let a1 = lj_atoms(&s1.shape);
                 let pl1: Vec<Affine> = s1.cartesian_positions().map(|t| to_affine(&t)).collect();
                 let r1 = reference(&a1, &pl1, &lattice_of(&s1.cell), 12.);
-                if a.is_finite() && b.is_finite() && !r1.degenerate {
+                let dr = 2. * e * (lat.a + lat.b) * 2.;
+                let dmin = r1.min_reduced_distance * atoms.iter().map(|a| a.sigma).fold(f64::INFINITY, f64::min);
+                if a.is_finite() && b.is_finite() && !r1.degenerate && !(dr / dmin < 1e-3) {
+                    // the displacement is not small against the closest approach: the linear
+                    // bound below says nothing
+                    st.count("face_crossing_pairs_skipped(particles closer than 1000 displacements)");
+                } else if a.is_finite() && b.is_finite() && !r1.degenerate {
                     // the two states differ by a displacement of 2e (fractional) of the copies;
                     // a term ~ r^-12 changes by at most ~13 dr/r
-                    let dr = 2. * e * (lat.a + lat.b) * 2.;
-                    let dmin = r1.min_reduced_distance * atoms.iter().map(|a| a.sigma).fold(f64::INFINITY, f64::min);
                     let slack = 13. * (dr / dmin) * (r1.mag + r1.attractive) * 4. + 2. * tolerance(&r1) + 1e-9;
                     if !((a - b).abs() <= slack) {
                         let a2 = lj_atoms(&s2.shape);
@@ -329,7 +339,17 @@ pub fn check_multi_site(seed: u64, st: &mut Stats) {
     let one = |ops: &[&str]| WyckoffSite { letter: 'b', symmetries: ops.iter().filter_map(|o| Transform2::from_operations(o).ok()).collect(), num_rotations: 1, mirror_primary: false, mirror_secondary: false };
     // extra sites of multiplicity 1 (and 2): fewer copies than the general position
     let mut sites = vec![general.clone()];
-    match rng.gen_range(0, 3) {
+    let many = rng.gen_range(0, 12) == 0;
+    if many {
+        // dozens of sites: 33..140 molecules in the cell (supercells, disordered structures)
+        let order = general.symmetries.len();
+        let total = [33usize, 64, 65, 100, 128, 140][rng.gen_range(0, 6)];
+        while sites.len() * order < total {
+            sites.push(general.clone());
+        }
+    }
+    match if many { 9 } else { rng.gen_range(0, 3) } {
+        9 => {}
         0 => sites.push(one(&["x,y"])),
         1 => {
             sites.push(one(&["x,y"]));
@@ -340,7 +360,7 @@ pub fn check_multi_site(seed: u64, st: &mut Stats) {
             sites.push(one(&["x,y"]));
         }
     }
-    let shape = if rng.gen_bool(0.3) { LJShape2::circle() } else { LJShape2::from_trimer(0.637556, 120., 1.) };
+    let shape = if rng.gen_bool(0.3) && !many { LJShape2::circle() } else { LJShape2::from_trimer(0.637556, 120., 1.) };
     let family = if libx::is_oblique(group) { CrystalFamily::Monoclinic } else { CrystalFamily::Orthorhombic };
     let state0 = PotentialState::initialise(shape, Wallpaper { name: group.to_string(), family }, &sites);
     // spread the sites out and choose the cell through JSON values (exact doubles)
@@ -471,7 +491,7 @@ pub fn gen_history<R: Rng>(rng: &mut R) -> History {
 }
 
 pub fn run(ctx: &Ctx) {
-    ctx.set_rule("Lennard-Jones states of all 7 groups x {circle (uncut), trimers over the CLI's ranges (cutoff 3.5)} x cells (ratio 0.25-1, oblique angle pi/6-pi/2) at densities from strongly overlapping (0.3 molecule areas per molecule) to dilute (6), sites incl. special positions. Reference: exhaustive sum over EVERY pair of distinct molecule images within cutoff + extents (uncut: 40 sigma), each once, divided by N; pair kernel = the library's LJ2::energy (checked by C13) and, for like particles, the independent 12-6 law. Tolerance 1e-9 of the summed term magnitudes (uncut: 3% of the attractive sum). Also state objects that live through histories of 3-13 edits (several parameters at once, shape or cell replaced, clone(), JSON round trip), clause 1 after every edit. Also states with several occupied sites of different multiplicity (PotentialState::initialise with hand-made sites). Metamorphic: a copy moved across a cell face (1/2-1e-9 vs -1/2+1e-9) and origin shifts by the group's normaliser translations must not change the score. Non-trivial = at least one in-cell pair and one image pair carry energy; distinct by quantised parameters");
+    ctx.set_rule("Lennard-Jones states of all 7 groups x {circle (uncut), trimers over the CLI's ranges (cutoff 3.5)} x cells (ratio 0.25-1, oblique angle pi/6-pi/2) at densities from strongly overlapping (0.3 molecule areas per molecule) to dilute (6), sites incl. special positions. Reference: exhaustive sum over EVERY pair of distinct molecule images within cutoff + extents (uncut: 40 sigma), each once, divided by N; pair kernel = the library's LJ2::energy (checked by C13) and, for like particles, the independent 12-6 law. Tolerance 1e-9 of the summed term magnitudes (uncut: 3% of the attractive sum). Also state objects that live through histories of 3-13 edits (several parameters at once, shape or cell replaced, clone(), JSON round trip), clause 1 after every edit. Also states with several occupied sites of different multiplicity (and with dozens of sites: 33-140 molecules per cell) (PotentialState::initialise with hand-made sites). Metamorphic: a copy moved across a cell face (1/2-1e-9 vs -1/2+1e-9) and origin shifts by the group's normaliser translations must not change the score. Non-trivial = at least one in-cell pair and one image pair carry energy; distinct by quantised parameters");
     ctx.assume("pair energies are the library's own (C13 decides them); placements are read from cartesian_positions()");
     let n = ctx.tier.pick(5_000u64, 300_000u64);
     par_shards(ctx, 3, 64, |_, rng, st| {
